@@ -58,12 +58,13 @@ impl OperationTransformVisitor<'_> {
             return;
         }
 
-        if status != Status::NotModified {
-            self.transform_status.status = status;
+        // count only the operations this call actually instrumented
+        if status == Status::Modified {
+            self.transform_status.telemetry.inc(tag);
         }
 
-        if self.transform_status.status == Status::Modified {
-            self.transform_status.telemetry.inc(tag);
+        if status != Status::NotModified {
+            self.transform_status.status = status;
         }
     }
 }
@@ -150,8 +151,9 @@ impl VisitMut for OperationTransformVisitor<'_> {
                     opv_with_child_ctx.ident_provider,
                 );
                 if transform_result.is_modified() {
+                    // lowering the chain emits no hook by itself: the status and the telemetry are
+                    // updated when the call inside the lowered chain is instrumented below
                     expr.map_with_mut(|e| transform_result.expr.unwrap_or(e));
-                    opv_with_child_ctx.update_status(transform_result.status, transform_result.tag);
                 }
 
                 expr.visit_mut_children_with(opv_with_child_ctx);
